@@ -406,15 +406,16 @@ pub open spec fn deps_ok(nodes: Seq<BddNode>, vd: Seq<HashSet<Var>>) -> bool {
     &&& vd.len() == nodes.len()
     &&& forall|i: int| 0 <= i < nodes.len() ==> (#[trigger] vd[i])@ == supp(nodes, i)
 }
-// ---- C13 / C11: the count table
-#[cfg(feature = "adhoccounting")]
-pub open spec fn counts_ok(nodes: Seq<BddNode>, cc: Map<Term, CountNode>) -> bool {
-    forall|t: Term| t.0 < nodes.len() ==> #[trigger] cc.contains_key(t) && cc_ok(nodes, t.0 as int, cc[t])
-}
-#[cfg(not(feature = "adhoccounting"))]
-pub open spec fn counts_ok(nodes: Seq<BddNode>, cc: Map<Term, CountNode>) -> bool {
+// ---- C13 / C11: the count table: every entry present is right; with ad-hoc counting every handle has an entry
+pub open spec fn counts_present_ok(nodes: Seq<BddNode>, cc: Map<Term, CountNode>) -> bool {
     forall|t: Term| #[trigger] cc.contains_key(t) ==> t.0 < nodes.len() && cc_ok(nodes, t.0 as int, cc[t])
 }
+#[cfg(feature = "adhoccounting")]
+pub open spec fn counts_ok(nodes: Seq<BddNode>, cc: Map<Term, CountNode>) -> bool {
+    counts_present_ok(nodes, cc) && forall|t: Term| t.0 < nodes.len() ==> #[trigger] cc.contains_key(t)
+}
+#[cfg(not(feature = "adhoccounting"))]
+pub open spec fn counts_ok(nodes: Seq<BddNode>, cc: Map<Term, CountNode>) -> bool { counts_present_ok(nodes, cc) }
 // ---- frame lemmas for `Bdd::node` (the heavy quantifier reasoning lives here, once, outside the function bodies)
 pub proof fn lemma_core_push(o: Seq<BddNode>, n: Seq<BddNode>, co: Map<BddNode, Term>, cn: Map<BddNode, Term>, ite: Map<(Term, Term, Term), Term>, rc: Map<(Term, Var, bool), Term>, node: BddNode, nt: Term)
     requires
@@ -468,29 +469,72 @@ pub proof fn lemma_cc_entry(o: Seq<BddNode>, n: Seq<BddNode>, node: BddNode, cl:
     lemma_ext_paths(o, n, node.lo.0 as int); lemma_ext_paths(o, n, node.hi.0 as int);
     lemma_ext_depth(o, n, node.lo.0 as int); lemma_ext_depth(o, n, node.hi.0 as int);
 }
-#[cfg(feature = "adhoccounting")]
+// model-count component of the entry `node` computes with ad-hoc model counting (and of what the memoised counter stores)
+#[cfg(any(not(feature = "adhoccounting"), feature = "adhoccountmodels"))]
+pub proof fn lemma_cc_models_entry(o: Seq<BddNode>, n: Seq<BddNode>, node: BddNode, cl: CountNode, ch: CountNode, e: CountNode)
+    requires
+        n == o.push(node), node.lo.0 < o.len(), node.hi.0 < o.len(), o.len() >= 2,
+        cc_ok(o, node.lo.0 as int, cl), cc_ok(o, node.hi.0 as int, ch),
+        e.0.cmodels == cl.0.cmodels * (if cl.2 > ch.2 { 1int } else { pow2(exp32(ch.2 - cl.2)) as int }) + ch.0.cmodels * (if cl.2 > ch.2 { pow2(exp32(cl.2 - ch.2)) as int } else { 1int }),
+        e.0.models == cl.0.models * (if cl.2 > ch.2 { 1int } else { pow2(exp32(ch.2 - cl.2)) as int }) + ch.0.models * (if cl.2 > ch.2 { pow2(exp32(cl.2 - ch.2)) as int } else { 1int }),
+    ensures cc_models_ok(n, o.len() as int, e.0),
+{
+    assert(ext(o, n));
+    assert(guard(n, o.len() as int));
+    lemma_ext_models(o, n, node.lo.0 as int); lemma_ext_models(o, n, node.hi.0 as int);
+    lemma_ext_depth(o, n, node.lo.0 as int); lemma_ext_depth(o, n, node.hi.0 as int);
+    vstd::arithmetic::power2::lemma2_to64();
+    assert(pow2(0) == 1);
+}
 pub proof fn lemma_counts_push(o: Seq<BddNode>, n: Seq<BddNode>, co: Map<Term, CountNode>, cn: Map<Term, CountNode>, node: BddNode, e: CountNode, nt: Term)
     requires counts_ok(o, co), n == o.push(node), cn == co.insert(nt, e), cc_ok(n, o.len() as int, e), nt.0 == o.len(),
     ensures counts_ok(n, cn),
 {
     assert(ext(o, n));
-    assert forall|t: Term| t.0 < n.len() implies #[trigger] cn.contains_key(t) && cc_ok(n, t.0 as int, cn[t]) by {
-        if t.0 < o.len() {
-            assert(co.contains_key(t)); assert(t != nt);
+    assert forall|t: Term| #[trigger] cn.contains_key(t) implies t.0 < n.len() && cc_ok(n, t.0 as int, cn[t]) by {
+        if t != nt {
+            assert(co.contains_key(t));
             lemma_ext_paths(o, n, t.0 as int); lemma_ext_depth(o, n, t.0 as int); lemma_ext_models(o, n, t.0 as int);
-        } else { assert(t == nt); }
+        }
     }
+    assert forall|t: Term| t.0 < n.len() implies #[trigger] cn.contains_key(t) || !counts_all_present() by {
+        if t.0 < o.len() { if counts_all_present() { lemma_all_present(o, co, t); } } else { assert(t == nt); }
+    }
+    lemma_all_present_intro(n, cn);
 }
-// without ad-hoc counting `node` leaves the count table alone: entries stay right under extension
-#[cfg(not(feature = "adhoccounting"))]
-pub proof fn lemma_counts_ext(o: Seq<BddNode>, n: Seq<BddNode>, cc: Map<Term, CountNode>)
-    requires counts_ok(o, cc), ext(o, n),
-    ensures counts_ok(n, cc),
+// entries stay right under extension of the node table
+pub proof fn lemma_counts_present_ext(o: Seq<BddNode>, n: Seq<BddNode>, cc: Map<Term, CountNode>)
+    requires counts_present_ok(o, cc), ext(o, n),
+    ensures counts_present_ok(n, cc),
 {
-    assert forall|t: Term| #[trigger] cc.contains_key(t) && t.0 < o.len() implies cc_ok(n, t.0 as int, cc[t]) == cc_ok(o, t.0 as int, cc[t]) by {
+    assert forall|t: Term| #[trigger] cc.contains_key(t) implies t.0 < n.len() && cc_ok(n, t.0 as int, cc[t]) by {
         lemma_ext_paths(o, n, t.0 as int); lemma_ext_depth(o, n, t.0 as int); lemma_ext_models(o, n, t.0 as int);
     }
 }
+#[cfg(feature = "adhoccounting")]
+pub open spec fn counts_all_present() -> bool { true }
+#[cfg(not(feature = "adhoccounting"))]
+pub open spec fn counts_all_present() -> bool { false }
+#[cfg(feature = "adhoccounting")]
+pub proof fn lemma_all_present(nodes: Seq<BddNode>, cc: Map<Term, CountNode>, t: Term)
+    requires counts_ok(nodes, cc), t.0 < nodes.len(), ensures cc.contains_key(t) {}
+#[cfg(not(feature = "adhoccounting"))]
+pub proof fn lemma_all_present(nodes: Seq<BddNode>, cc: Map<Term, CountNode>, t: Term)
+    requires counts_ok(nodes, cc), t.0 < nodes.len(), counts_all_present(), ensures cc.contains_key(t) {}
+#[cfg(feature = "adhoccounting")]
+pub proof fn lemma_all_present_intro(nodes: Seq<BddNode>, cc: Map<Term, CountNode>)
+    requires counts_present_ok(nodes, cc), forall|t: Term| t.0 < nodes.len() ==> #[trigger] cc.contains_key(t) || !counts_all_present(),
+    ensures counts_ok(nodes, cc) {}
+#[cfg(not(feature = "adhoccounting"))]
+pub proof fn lemma_all_present_intro(nodes: Seq<BddNode>, cc: Map<Term, CountNode>)
+    requires counts_present_ok(nodes, cc), ensures counts_ok(nodes, cc) {}
+// memoised model counting is exact except in the documented configuration (C12)
+#[cfg(all(feature = "adhoccounting", not(feature = "adhoccountmodels")))]
+pub open spec fn models_memo_exact() -> bool { false }
+#[cfg(any(not(feature = "adhoccounting"), feature = "adhoccountmodels"))]
+pub open spec fn models_memo_exact() -> bool { true }
+pub open spec fn is_models(nodes: Seq<BddNode>, t: int, c: ModelCounts) -> bool { c.cmodels == models_spec(nodes, t).0 && c.models == models_spec(nodes, t).1 }
+pub open spec fn is_paths(nodes: Seq<BddNode>, t: int, c: ModelCounts) -> bool { c.cmodels == paths_spec(nodes, t).0 && c.models == paths_spec(nodes, t).1 }
 impl Bdd {
     pub open spec fn wf_core(&self) -> bool { core_ok(self.nodes@, self.cache@, self.ite_cache@, self.restrict_cache@) }
     #[cfg(feature = "variablelist")]
@@ -506,6 +550,35 @@ impl Bdd {
 
     pub open spec fn wf(&self) -> bool { self.wf_core() && self.wf_deps() && self.wf_counts() && self.wf_chan() }
 
+    #[cfg(feature = "variablelist")]
+    pub open spec fn same_deps(&self, o: Bdd) -> bool { self.var_deps == o.var_deps }
+    #[cfg(not(feature = "variablelist"))]
+    pub open spec fn same_deps(&self, o: Bdd) -> bool { true }
+    #[cfg(feature = "frontend")]
+    pub open spec fn same_chan(&self, o: Bdd) -> bool { self.sender == o.sender && self.receiver == o.receiver && self.vx_sent@ == o.vx_sent@ && self.vx_recvd@ == o.vx_recvd@ }
+    #[cfg(not(feature = "frontend"))]
+    pub open spec fn same_chan(&self, o: Bdd) -> bool { true }
+    // frame of the `&self` methods that only touch the (former RefCell) count table
+    pub open spec fn same_but_counts(&self, o: Bdd) -> bool {
+        self.nodes == o.nodes && self.cache == o.cache && self.ite_cache == o.ite_cache && self.restrict_cache == o.restrict_cache && self.same_deps(o) && self.same_chan(o)
+    }
+    #[cfg(feature = "variablelist")]
+    pub open spec fn deps_empty(&self) -> bool { self.var_deps@.len() == 0 }
+    #[cfg(not(feature = "variablelist"))]
+    pub open spec fn deps_empty(&self) -> bool { true }
+    #[cfg(feature = "frontend")]
+    pub open spec fn chan_none(&self) -> bool { self.sender.is_none() && self.receiver.is_none() }
+    #[cfg(not(feature = "frontend"))]
+    pub open spec fn chan_none(&self) -> bool { true }
+    // what serde leaves after an import: node table and unique table as exported (C06), every #[serde(skip)] field empty
+    pub open spec fn wf_imported(&self) -> bool {
+        &&& core_ok(self.nodes@, self.cache@, Map::<(Term, Term, Term), Term>::empty(), Map::<(Term, Var, bool), Term>::empty())
+        &&& self.ite_cache@ =~= Map::<(Term, Term, Term), Term>::empty() && self.restrict_cache@ =~= Map::<(Term, Var, bool), Term>::empty()
+        &&& self.deps_empty() && self.count_cache@ =~= Map::<Term, CountNode>::empty() && self.chan_none()
+    }
+    pub open spec fn active_cnt(&self, var: Var, tl: Seq<Term>, k: int) -> int
+        decreases k
+    { if k <= 0 { 0 } else { self.active_cnt(var, tl, k - 1) + if supp(self.nodes@, tl[var.0 as int].0 as int).contains(Var((k - 1) as usize)) { 1int } else { 0int } } }
     pub open spec fn impact_cnt(&self, var: Var, tl: Seq<Term>, k: int) -> int
         decreases k
     { if k <= 0 { 0 } else { self.impact_cnt(var, tl, k - 1) + if supp(self.nodes@, tl[k - 1].0 as int).contains(var) { 1int } else { 0int } } }
